@@ -498,7 +498,7 @@ def fixed_histories():
         [(0, ("create", {"seconds": 2})), (0, ("create", {"hours": 1})), (1, ("access", 0, "begin")), (2, ("access", 0, "step")),
          (3 * S, ("metrics",)), (4 * S, ("access", 0, "results")), (6 * S - 1, ("metrics",)), (6 * S, ("metrics",)), (6 * S, ("fullmetrics",)),
          (7 * S, ("keepalive", 0)), (9 * S, ("access", 1, "results")), (9 * S, ("stop", 0)), (9 * S + 1, ("access", 0, "results"))],
-        # the same through load-state; save-state refuses while an instance has no session; stop-instance removes the file
+        # the same through load-state; save-state skips the instance that has no session and stores the other; stop-instance removes the file
         [(0, ("create", {"milliseconds": 1500})), (0, ("create", {"days": 1})), (1, ("access", 0, "begin")), (2, ("savestate",)),
          (3, ("access", 1, "begin")), (4, ("savestate",)), (2 * S, ("fullmetrics",)), (3 * S, ("loadstate",)), (3 * S + 1, ("fullmetrics",)),
          (4 * S + 499_999, ("metrics",)), (4 * S + 500_000, ("metrics",)), (5 * S, ("stop", 1)), (5 * S, ("loadstate",)), (5 * S + 1, ("access", 1, "results"))],
